@@ -229,6 +229,7 @@ class EMG(Block):
             next_channel = i16.free_channel(self._emgMap)
             self._emgMap.append(next_channel)
         else:
+            i16.check_channel(channel)
             if channel in self._emgMap:
                 raise ValueError(f"Channel {channel} already in use")
             self._emgMap.append(channel)
